@@ -149,6 +149,8 @@ CHECKS["C01"] = {
         handle_h("c01_k1_e", 1, "[empty method]", ("thorough",)),
         handle_h("c01_k1_d_flags", 1, "[dispatched, request carrying more=true, oneway=false]", ("quick", "thorough")),
         handle_h("c01_k2_dd", 2, "[dispatched, dispatched]", ("quick", "thorough")),
+        handle_h("c01_k2_dd_flags2", 2, "[dispatched, dispatched], requests carrying more=false, oneway=true, upgrade=true",
+                 ("thorough",)),
         handle_h("c01_k2_nd", 2, "[no dot, dispatched]", ("quick", "thorough")),
         handle_h("c01_k2_dn", 2, "[dispatched, no dot]", ("quick", "thorough")),
         handle_h("c01_k2_ed", 2, "[empty method, dispatched]", ("thorough",)),
@@ -382,6 +384,13 @@ CHECKS["C02"] = {
                         (2, "on the message boundary", ("quick", "thorough")), (3, "between the second message and its NUL", ("quick", "thorough")),
                         (4, "after the last complete message", ("thorough",)), (5, "whole stream first", ("thorough",))]
     ] + [
+        H("c02_upgraded_entry", mod="verif_lib::c01", tiers=("quick", "thorough"), timeout=(1500, 3600), functions=HANDLE_FUNCS,
+          symbolic="the 5 bytes of the upgraded stream (arbitrary, NULs included); how many trailing bytes the upgraded "
+                   "handler leaves unread (0 or 1)",
+          bounds="handle(stream, writer, Some(\"a.b\")) on a 5-byte stream; unwind 10",
+          stubs=STUB_HANDLE + ["varlink::VarlinkService::call_upgraded (private table lookup + the interface's upgraded "
+                               "handler) -> model that reads the stream to its end through the reader it is given"],
+          loop_rules=HANDLE_LOOPS),
         # the upgrade hand-over clause is decided by the C01 harnesses' P:c02.* assertions
         handle_h("c01_k2_dd", 2, "[dispatched, dispatched] (upgrade hand-over clause)", ("quick", "thorough")),
         handle_h("c01_k3_ddd", 3, "[dispatched x3] (upgrade hand-over clause)", ("thorough",)),
